@@ -246,6 +246,11 @@ func (t *Dense) Slice(slices ...Slice) (retVal View, err error) {
 	view.oe = t.oe
 	view.flag = t.flag
 	view.AP = newAP
+	if !t.old.IsZero() && !view.AP.IsScalar() {
+		// the strides of a lazily transposed tensor are not those of its storage order,
+		// so no view of it may be read as a contiguous block
+		view.AP.o = MakeDataOrder(view.AP.o, NonContiguous)
+	}
 	view.setParentTensor(t)
 	t.sliceInto(ndStart, ndEnd, &view.array)
 
@@ -274,6 +279,9 @@ func (t *Dense) SliceInto(view *Dense, slices ...Slice) (retVal View, err error)
 	view.oe = t.oe
 	view.flag = t.flag
 	view.AP = newAP
+	if !t.old.IsZero() && !view.AP.IsScalar() {
+		view.AP.o = MakeDataOrder(view.AP.o, NonContiguous)
+	}
 	view.setParentTensor(t)
 	t.sliceInto(ndStart, ndEnd, &view.array)
 
